@@ -2,10 +2,13 @@
    non-preemptible request and its used amounts leave the parent chain. In individual form: the
    removed quota may have children (re-parenting), which stay behind as orphans. *)
 From Coq Require Import List ZArith Bool Lia.
-From Verif Require Import Lib.Vec2 C01.Model C01.Spec C01.Proofs_Base C01.Proofs_Walk C01.Proofs_Delta
+From Verif Require Import Lib.VecN C01.Model C01.Spec C01.Proofs_Base C01.Proofs_Walk C01.Proofs_Delta
   C01.Proofs_Shape C01.Proofs_CWalk.
 Import ListNotations.
 Open Scope Z_scope.
+
+Section WithDim.
+Context {D : Dim}.
 
 Section Detach.
   Variable sh : list qshape.
@@ -218,3 +221,5 @@ Section Detach.
     Qed.
   End Used.
 End Detach.
+
+End WithDim.
